@@ -74,9 +74,18 @@ class System:
                         for i in range(self.W):
                             for j in range(self.W):
                                 ops.append(dict(op="X", az=a, i=i, az2=b, j=j))
+        if root.get("swap_same_azimuth"):
+            # reject one window and re-accept another ON THE SAME azimuth: every per-azimuth count stays
+            for a in range(self.nA):
+                for i in range(self.W):
+                    for j in range(self.W):
+                        if i != j:
+                            ops.append(dict(op="X", az=a, i=i, az2=a, j=j))
         for r in ((None, None), (f[1], f[F - 2]), (None, f[3]), (f[2], None)):
             ops.append(dict(op="U", rng=list(r)))
         ops.append(dict(op="U", rng=[None, None], kw={"height": [None, 3.6]}))
+        # a range update whose peak options scipy refuses (ValueError): the object must stay as it was
+        ops.append(dict(op="U", rng=[f[1], f[F - 2]], kw={"distance": 0}))
         for n in (0.5, 1, 2):
             for d in ("lognormal", "normal"):
                 ops.append(dict(op="F", n=n, dfn=d, dmc=d, rng=[None, None]))
@@ -172,7 +181,10 @@ class System:
         return (tuple((tuple(vw), tuple(vp)) for vw, vp in self._masks(o)),
                 tuple(None if v is None else float(v) for v in h.rng),
                 repr(h.kw or None),
-                tuple(tuple(_f(v) for v in t._main_peak_frq) for t in o.hvsrs))
+                tuple(tuple(_f(v) for v in t._main_peak_frq) for t in o.hvsrs),
+                # the range the object itself has recorded (differs from the driver's only after a refused update)
+                tuple(tuple(None if v is None else float(v) for v in (t._search_range_in_hz or ())) for t in o.hvsrs),
+                repr(o.meta.get("search_range_in_hz")))
 
     def observe(self, h):
         return tuple(_nonan(_call(h.obj, name, args, d)) for d in DISTS for name, args in ACCESSORS)
@@ -381,6 +393,8 @@ def roots(tier, seed):
         out.append(dict(grid="lin", F=7, shapes_by_az=[S[2][0], S[2][1]], depth=3, touch=True, reaccept=True,
                         ops_subset="MA"))
         out.append(dict(grid="lin", F=7, shapes_by_az=[S[3][0], S[3][1]], depth=2, touch=True, reaccept=True))
+        out.append(dict(grid="lin", F=7, shapes_by_az=[S[3][1], S[3][0]], depth=2, touch=True, reaccept=True,
+                        swap_same_azimuth=True, ops_subset="MA"))
         out.append(dict(grid="lin", F=7, shapes_by_az=same, depth=1))
         out.append(dict(grid="fine", F=7, shapes_by_az=[S[3][0], S[3][2]], depth=1))
     else:
@@ -391,6 +405,8 @@ def roots(tier, seed):
                             touch=True, reaccept=True, ops_subset="MA"))
             out.append(dict(grid="lin", F=7, shapes_by_az=[S[W][0], S[W][1]], depth=2, touch=True, reaccept=True))
         out.append(dict(grid="lin", F=7, shapes_by_az=same, depth=2))
+        out.append(dict(grid="lin", F=7, shapes_by_az=[S[3][1], S[3][0]], depth=3, touch=True, reaccept=True,
+                        swap_same_azimuth=True, ops_subset="MA"))
         out.append(dict(grid="lin", F=7, shapes_by_az=same + [["p3", "p3", "p3"]], depth=1))
         out.append(dict(grid="fine", F=7, shapes_by_az=[S[3][0], S[3][2]], depth=2))
     if tier == "quick":
